@@ -95,4 +95,10 @@ CHECKS = {
         "level_note": "Only dictionaries that satisfy the statement's precondition (units concatenate to the key) are generated here; inconsistent ones are C01/C03 territory (known finding D9).",
         "technique": "reference-model monitor (declared units from the source CSV) + differential monitor (split API vs direct mode A/B)",
     },
+    "C12": {
+        "level_text": "Exploration: stacks of 0-15 user dictionaries (compiled like the CLI does) are loaded over one system dictionary together with POS-registering OOV plugins; every row of every layer is read back against the source model, system rows are compared with a zero-layer load, morpheme-level ids / POS are checked on analyses, and the 15th layer must be refused with an error. Held on the counted stacks.",
+        "design_ref": "DESIGN.md 6/C12",
+        "level_note": "Trusts the per-layer source model; layer counts and plugin-POS counts are in the evidence counters.",
+        "technique": "reference-model monitor over layered loads + differential monitor (k layers vs 0 layers)",
+    },
 }
